@@ -85,7 +85,7 @@ class H:
 
         symtime.CLOCK.reset()
         if self.storage == "mem":
-            if lpe.is_symbolic():
+            if lpe.is_symbolic() and self.cfg.get("stub", True):
                 symtime.install()
                 symtime.HASH_OK[0] = True
             self.db = TinyFlux(storage=MemoryStorage, auto_index=self.ai)
@@ -235,8 +235,11 @@ class H:
         return compile_q(qd, mk_time)
 
     # ---- read observations (C01)
-    def check_reads(self, qd, mfilter=None, what="", select_keys=("time", "measurement", "tags.k", "fields.f"), via=None):
+    def check_reads(self, qd, mfilter=None, what="", select_keys=("time", "measurement", "tags.k", "fields.f"), via=None, qobj=None):
         db, model = self.db, self.model
+        if qobj is not None:  # a pre-built query object whose documented meaning is qd
+            _compile = self.compile
+            self.compile = lambda _qd: qobj()
         tag = f"{what} q={q_repr(qd)} measurement={show(mfilter)}"
         kw = {} if mfilter is None else {"measurement": mfilter}
         if via is not None:  # through a Measurement handle
@@ -285,6 +288,7 @@ class H:
             require(us_of(v) == mp.t, lambda: f"select('time') {show(v)} vs {show(mp.t)} [{tag}]")
 
     # ---- index invariant (C06)
+    # (check_reads temporarily rebinds self.compile when given qobj; instances are per path)
     def check_inv(self, what=""):
         from tinyflux.index import Index
 
